@@ -374,6 +374,29 @@ theorem depthL_mkParts_le (l : List RT) : depthL (mkParts l) ≤ depthL l :=
   Nat.le_trans (depthL_mergeSimilar_le _) (depthL_prep_le l)
 
 
+theorem depthL_begLoop_le {α : Type} (val : α → RT) (cut : α → Int → RT) (l : List α) (n length : Int)
+    (d : Nat) (hv : ∀ a ∈ l, depth (val a) ≤ d) (hc : ∀ a ∈ l, ∀ m, depth (cut a m) ≤ d) :
+    depthL (begLoop val cut l n length) ≤ d := by
+  rw [depthL_le_iff]
+  intro x hx
+  obtain ⟨a, ha, h | ⟨m, h⟩⟩ := mem_begLoop hx
+  · subst h; exact hv a ha
+  · subst h; exact hc a ha m
+
+theorem depthL_endLoop_le {α : Type} (val : α → RT) (cut : α → Int → RT) (l : List α) (n length : Int)
+    (d : Nat) (hv : ∀ a ∈ l, depth (val a) ≤ d) (hc : ∀ a ∈ l, ∀ m, depth (cut a m) ≤ d) :
+    depthL (endLoop val cut l n length) ≤ d := by
+  rw [depthL_le_iff]
+  intro x hx
+  obtain ⟨a, ha, h | ⟨m, h⟩⟩ := mem_endLoop hx
+  · subst h; exact hv a ha
+  · subst h; exact hc a ha m
+
+theorem depthL_reverse (l : List RT) : depthL l.reverse = depthL l := by
+  apply Nat.le_antisymm <;> rw [depthL_le_iff] <;> intro p hp
+  · exact depth_le_of_mem (List.mem_reverse.1 hp)
+  · exact depth_le_of_mem (List.mem_reverse.2 hp)
+
 /-- `'a'[i:j]` is non-empty (what `Symbol.__getitem__` looks at). -/
 def symSliceNonempty (i j : Option Int) : Bool := !(strSlice [()] i j).isEmpty
 
@@ -401,37 +424,321 @@ def getSliceB (t : RT) (i j : Option Int) : {r : RT // depth r ≤ depth t} :=
           have h1 := depthL_mkParts_le b
           have h2 := depthL_mkParts_le e
           simp only [mk, depth]; omega⟩
-termination_by (2 * depth t, 0)
+termination_by 2 * depth t
 decreasing_by
-  all_goals simp_wf
-  · simp only [depth]; apply Prod.Lex.left; omega
+  · simp only [depth]; omega
   · have h2 := depthL_mkParts_le e
-    simp only [depth]; apply Prod.Lex.left; omega
+    simp only [depth]; omega
 
 def sliceBegPartsB (ps : List RT) (n : Int) : {r : List RT // depthL r ≤ depthL ps} :=
-  ⟨begLoop (fun p => p.val) (fun p m => (getSliceB p.val none (some m)).val) ps.attach n 0, by
-    rw [depthL_le_iff]
-    intro x hx
-    obtain ⟨a, _, h | ⟨m, h⟩⟩ := mem_begLoop hx
-    · subst h; exact depth_le_of_mem a.2
-    · subst h; exact Nat.le_trans (getSliceB a.val none (some m)).2 (depth_le_of_mem a.2)⟩
-termination_by (2 * depthL ps + 1, 0)
+  ⟨begLoop (fun p => p.val) (fun p m => (getSliceB p.val none (some m)).val) ps.attach n 0,
+    depthL_begLoop_le _ _ _ _ _ _ (fun a _ => depth_le_of_mem a.2)
+      (fun a _ m => Nat.le_trans (getSliceB a.val none (some m)).2 (depth_le_of_mem a.2))⟩
+termination_by 2 * depthL ps + 1
 decreasing_by
-  simp_wf; apply Prod.Lex.left; have := depth_le_of_mem p.2; omega
+  all_goals first
+    | (have := depth_le_of_mem p.2; omega)
+    | (have := depth_le_of_mem a.2; omega)
 
 def sliceEndPartsB (ps : List RT) (n : Int) : {r : List RT // depthL r ≤ depthL ps} :=
   ⟨(endLoop (fun p => p.val) (fun p m => (getSliceB p.val (some m) none).val)
       ps.reverse.attach n 0).reverse, by
-    rw [depthL_le_iff]
-    intro x hx
-    rw [List.mem_reverse] at hx
-    obtain ⟨a, _, h | ⟨m, h⟩⟩ := mem_endLoop hx
-    · subst h; exact depth_le_of_mem (List.mem_reverse.1 a.2)
-    · subst h
-      exact Nat.le_trans (getSliceB a.val (some m) none).2 (depth_le_of_mem (List.mem_reverse.1 a.2))⟩
-termination_by (2 * depthL ps + 1, 0)
+    rw [depthL_reverse]
+    exact depthL_endLoop_le _ _ _ _ _ _ (fun a _ => depth_le_of_mem (List.mem_reverse.1 a.2))
+      (fun a _ m => Nat.le_trans (getSliceB a.val (some m) none).2
+        (depth_le_of_mem (List.mem_reverse.1 a.2)))⟩
+termination_by 2 * depthL ps + 1
 decreasing_by
-  simp_wf; apply Prod.Lex.left; have := depth_le_of_mem (List.mem_reverse.1 p.2); omega
+  all_goals first
+    | (have := depth_le_of_mem (List.mem_reverse.1 p.2); omega)
+    | (have := depth_le_of_mem (List.mem_reverse.1 a.2); omega)
+end
+
+
+/-- `text[i:j]` (a slice object with step 1; `i`, `j` may be `None`).
+`String`: `String(value[i:j])`.  `Symbol`: `self` if `'a'[i:j]` is non-empty, else `String()`.
+Multipart (with fixes C08-1): `start, end = slice.indices(len)`; `if end < start: end = start`;
+`self._slice_end(len - start)._slice_beginning(end - start)`. -/
+def getSlice (t : RT) (i j : Option Int) : RT := (getSliceB t i j).val
+
+/-- the list `parts` built by the loop of `_slice_beginning(n)` over `self.parts = ps`. -/
+def sliceBeginningParts (ps : List RT) (n : Int) : List RT :=
+  begLoop id (fun p m => getSlice p none (some m)) ps n 0
+
+/-- `reversed(parts)` for the list built by the loop of `_slice_end(n)`. -/
+def sliceEndParts (ps : List RT) (n : Int) : List RT :=
+  (endLoop id (fun p m => getSlice p (some m) none) ps.reverse n 0).reverse
+
+/-- `_slice_beginning(n)` of the multipart text `node k ps`. -/
+def sliceBeginning (k : Kind) (ps : List RT) (n : Int) : RT := mk k (sliceBeginningParts ps n)
+
+/-- `_slice_end(n)` of the multipart text `node k ps`. -/
+def sliceEnd (k : Kind) (ps : List RT) (n : Int) : RT := mk k (sliceEndParts ps n)
+
+theorem begLoop_map {α β : Type} (g : α → β) (val : β → RT) (cut : β → Int → RT) (l : List α)
+    (n length : Int) :
+    begLoop val cut (l.map g) n length = begLoop (fun a => val (g a)) (fun a => cut (g a)) l n length := by
+  induction l generalizing length with
+  | nil => simp [begLoop]
+  | cons a as ih => simp only [List.map_cons, begLoop, ih]
+
+theorem endLoop_map {α β : Type} (g : α → β) (val : β → RT) (cut : β → Int → RT) (l : List α)
+    (n length : Int) :
+    endLoop val cut (l.map g) n length = endLoop (fun a => val (g a)) (fun a => cut (g a)) l n length := by
+  induction l generalizing length with
+  | nil => simp [endLoop]
+  | cons a as ih => simp only [List.map_cons, endLoop, ih]
+
+theorem sliceBegPartsB_val (ps : List RT) (n : Int) :
+    (sliceBegPartsB ps n).val = sliceBeginningParts ps n := by
+  unfold sliceBegPartsB sliceBeginningParts
+  simp only
+  conv => rhs; rw [← List.attach_map_subtype_val ps]
+  rw [begLoop_map]
+  rfl
+
+theorem sliceEndPartsB_val (ps : List RT) (n : Int) :
+    (sliceEndPartsB ps n).val = sliceEndParts ps n := by
+  unfold sliceEndPartsB sliceEndParts
+  simp only
+  conv => rhs; rw [← List.attach_map_subtype_val ps.reverse]
+  rw [endLoop_map]
+  rfl
+
+theorem getSlice_str (s : Str) (i j : Option Int) : getSlice (.str s) i j = .str (strSlice s i j) := by
+  simp [getSlice, getSliceB]
+
+theorem getSlice_sym (n : Str) (i j : Option Int) :
+    getSlice (.sym n) i j = if symSliceNonempty i j then .sym n else .str [] := by
+  simp [getSlice, getSliceB]
+
+/-- the defining equation of `__getitem__` for a slice of a multipart text. -/
+theorem getSlice_node (k : Kind) (ps : List RT) (i j : Option Int) :
+    getSlice (.node k ps) i j =
+      let n := lenL ps
+      let start := sliceIdx n i 0
+      let stop := sliceIdx n j n
+      let stop' := if stop < start then start else stop
+      sliceBeginning k (mkParts (sliceEndParts ps ((n : Int) - start))) ((stop' : Int) - start) := by
+  simp only [getSlice]
+  rw [getSliceB]
+  simp only [sliceBeginning, ← sliceBegPartsB_val, ← sliceEndPartsB_val]
+
+/-- Python exceptions the rich-text operations can raise on the modelled domain. -/
+inductive Err where
+  | indexError
+deriving DecidableEq, Repr
+
+/-- `text[i]` for an integer `i`.  `String`: `String(value[i])`; `Symbol`: mimics a one-character
+string; multipart (with fix C08-4): `IndexError` unless `-len <= i < len`, then
+`self._slice_end(len - start)._slice_beginning(1)`. -/
+def getIndex (t : RT) (i : Int) : Except Err RT :=
+  if -(len t : Int) ≤ i ∧ i < (len t : Int) then
+    let start : Int := if i < 0 then (len t : Int) + i else i
+    match t with
+    | .str s => .ok (.str ((s.drop start.toNat).take 1))
+    | .sym n => .ok (.sym n)
+    | .node k ps => .ok (sliceBeginning k (mkParts (sliceEndParts ps ((len t : Int) - start))) 1)
+  else .error .indexError
+
+/-! ### `split` -/
+
+/-- The separator argument of `split`: `None` (runs of white space) or a non-empty literal string
+(an empty literal makes `str.split` raise `ValueError`; it is outside the modelled domain). -/
+inductive Sep where
+  | ws
+  | lit (c : Char) (cs : Str)
+deriving DecidableEq, Repr
+
+/-- `re.compile(r'\s+').split(value)`: cut at maximal runs of white space, keeping empty strings
+at the ends. `cur` is the current piece (reversed), `inRun` says the previous character was white. -/
+def reSplitWs : Str → Str → Bool → List Str
+  | [], cur, _ => [cur.reverse]
+  | c :: r, cur, inRun =>
+    if isWs c then (if inRun then reSplitWs r cur true else cur.reverse :: reSplitWs r [] true)
+    else reSplitWs r (c :: cur) false
+
+/-- `value.split(sep)` for a non-empty literal `sep`: leftmost non-overlapping occurrences.
+`skip` counts the characters of a matched separator still to be passed over. -/
+def splitLit (sep : Str) : Str → Str → Nat → List Str
+  | [], cur, _ => [cur.reverse]
+  | _ :: r, cur, skip + 1 => splitLit sep r cur skip
+  | c :: r, cur, 0 =>
+    if sep.isPrefixOf (c :: r) then cur.reverse :: splitLit sep r [] (sep.length - 1)
+    else splitLit sep r (c :: cur) 0
+
+def strSplit (sep : Sep) (s : Str) : List Str :=
+  match sep with
+  | .ws => reSplitWs s [] false
+  | .lit c cs => splitLit (c :: cs) s [] 0
+
+/-- `keep_empty_parts` defaults to `sep is not None`. -/
+def keepDefault (sep : Sep) (keep : Option Bool) : Bool :=
+  match keep with
+  | some b => b
+  | none => match sep with
+    | .ws => false
+    | .lit _ _ => true
+
+/-- `for item in split_part[:-1]` of `BaseMultipartText.split` (with fix C08-5: the text made
+of the pending tail and the item is subject to the same emptiness test as every other part).
+Returns the texts yielded and the new `tail`. -/
+def splitItems (k : Kind) (keep : Bool) : List RT → List RT → List RT × List RT
+  | [], tail => ([], tail)
+  | item :: items, tail =>
+    let r := splitItems k keep items []
+    if !tail.isEmpty then
+      let tailText := mk k (tail ++ [item])
+      ((if len tailText != 0 || keep then [tailText] else []) ++ r.1, r.2)
+    else
+      ((if len item != 0 || keep then [mk k [item]] else []) ++ r.1, r.2)
+
+mutual
+/-- `text.split(sep, keep_empty_parts)`. -/
+def split (sep : Sep) : RT → Option Bool → List RT
+  | .str s, keep =>
+    ((strSplit sep s).filter fun part => !part.isEmpty || keepDefault sep keep).map .str
+  | .sym n, _ => [.sym n]
+  | .node .prot ps, _ => [.node .prot ps]
+  | .node k ps, keep =>
+    splitL sep k (keepDefault sep keep) ps (if keepDefault sep keep then [.str []] else [])
+/-- the loop `for part in self.parts` and the final `if tail:` of `BaseMultipartText.split`. -/
+def splitL (sep : Sep) (k : Kind) (keep : Bool) : List RT → List RT → List RT
+  | [], tail =>
+    if !tail.isEmpty then
+      (if len (mk k tail) != 0 || keep then [mk k tail] else [])
+    else []
+  | part :: ps, tail =>
+    match (split sep part (some true)).reverse with
+    | [] => splitL sep k keep ps tail
+    | last :: revInit =>
+      let r := splitItems k keep revInit.reverse tail
+      r.1 ++ splitL sep k keep ps (r.2 ++ [last])
+end
+
+/-! ### `startswith`, `endswith`, `in`, `isalpha` -/
+
+mutual
+/-- `text.startswith(prefix)`; `prefixes` is the tuple of alternatives (a single string is a
+one-element tuple). Part-wise by documented design. -/
+def startsWith (prefixes : List Str) : RT → Bool
+  | .str s => prefixes.any fun p => p.isPrefixOf s
+  | .sym _ => false
+  | .node _ ps => startsWithL prefixes ps
+def startsWithL (prefixes : List Str) : List RT → Bool
+  | [] => false
+  | p :: _ => startsWith prefixes p
+end
+
+mutual
+def endsWith (suffixes : List Str) : RT → Bool
+  | .str s => suffixes.any fun p => p.isSuffixOf s
+  | .sym _ => false
+  | .node _ ps => endsWithL suffixes ps
+def endsWithL (suffixes : List Str) : List RT → Bool
+  | [] => false
+  | [p] => endsWith suffixes p
+  | _ :: q :: ps => endsWithL suffixes (q :: ps)
+end
+
+/-- `item in value` for Python strings. -/
+def isInfix (item : Str) : Str → Bool
+  | [] => item.isEmpty
+  | c :: r => item.isPrefixOf (c :: r) || isInfix item r
+
+mutual
+/-- `text.__contains__(item)` for a string `item`. -/
+def contains (item : Str) : RT → Bool
+  | .str s => isInfix item s
+  | .sym _ => false
+  | .node _ ps => item.isEmpty || containsL item ps
+def containsL (item : Str) : List RT → Bool
+  | [] => false
+  | p :: ps => contains item p || containsL item ps
+end
+
+mutual
+/-- `text.isalpha()`; `str.isalpha` is "non-empty and every character alphabetic". -/
+def isAlphaT : RT → Bool
+  | .str s => !s.isEmpty && s.all isAlpha
+  | .sym _ => false
+  | .node _ ps => lenL ps != 0 && isAlphaL ps
+def isAlphaL : List RT → Bool
+  | [] => true
+  | p :: ps => isAlphaT p && isAlphaL ps
+end
+
+/-! ### case -/
+
+mutual
+/-- `lower()` / `upper()` with `f` the string method: `String(f(value))`, a `Symbol` and a
+`Protected` return `self`, other multipart texts `_create_similar(part.f() for part in parts)`. -/
+def caseMap (f : Str → Str) : RT → RT
+  | .str s => .str (f s)
+  | .sym n => .sym n
+  | .node .prot ps => .node .prot ps
+  | .node k ps => mk k (caseMapL f ps)
+def caseMapL (f : Str → Str) : List RT → List RT
+  | [] => []
+  | p :: ps => caseMap f p :: caseMapL f ps
+end
+
+def lowerT (t : RT) : RT := caseMap Pybtex.lower t
+def upperT (t : RT) : RT := caseMap Pybtex.upper t
+
+/-- `capfirst()`: `self[:1].upper() + self[1:]`; `Protected` returns `self`. -/
+def capfirst (t : RT) : RT :=
+  match t with
+  | .node .prot _ => t
+  | _ => add (upperT (getSlice t none (some 1))) (getSlice t (some 1) none)
+
+/-- `capitalize()`: `self[:1].upper() + self[1:].lower()`; `Protected` returns `self`. -/
+def capitalize (t : RT) : RT :=
+  match t with
+  | .node .prot _ => t
+  | _ => add (upperT (getSlice t none (some 1))) (lowerT (getSlice t (some 1) none))
+
+/-- `add_period(period)`: `self.append(period)` if the text is non-empty and
+`textutils.is_terminated(self)` (= `self.endswith(terminators)`) is false, else `self`. -/
+def addPeriod (terminators : List Str) (period : RT) (t : RT) : RT :=
+  if len t != 0 && !endsWith terminators t then append t period else t
+
+/-! ### rendering -/
+
+/-- The backend protocol of `pybtex.backends.BaseBackend` as used by `render`:
+`RenderType = R`; `symbols` is the dict (`none` = `KeyError`). -/
+structure Backend (R : Type) where
+  formatStr : Str → R
+  formatTag : Str → R → R
+  formatHref : Str → R → Bool → R
+  formatProtected : R → R
+  renderSequence : List R → R
+  symbols : Str → Option R
+
+mutual
+/-- `text.render(backend)`; `none` = `KeyError` from `backend.symbols[name]`. -/
+def render {R : Type} (b : Backend R) : RT → Option R
+  | .str s => some (b.formatStr s)
+  | .sym n => b.symbols n
+  | .node k ps =>
+    match renderL b ps with
+    | none => none
+    | some l =>
+      let text := b.renderSequence l
+      match k with
+      | .text => some text
+      | .tag n => some (b.formatTag n text)
+      | .href u e => some (b.formatHref u text e)
+      | .prot => some (b.formatProtected text)
+def renderL {R : Type} (b : Backend R) : List RT → Option (List R)
+  | [] => some []
+  | p :: ps =>
+    match render b p with
+    | none => none
+    | some r =>
+      match renderL b ps with
+      | none => none
+      | some rs => some (r :: rs)
 end
 
 end RT
